@@ -11,7 +11,9 @@ import (
 	"net/http/httptest"
 	"net/url"
 	"os"
+	"path/filepath"
 	"regexp"
+	"strconv"
 	"strings"
 	"sync"
 	"time"
@@ -34,8 +36,20 @@ func (f *c10Flags) Bool(n string, d bool, _ string) *bool {
 	}
 	return &d
 }
-func (f *c10Flags) Int(n string, d int, _ string) *int { return &d }
+func (f *c10Flags) Int(n string, d int, _ string) *int {
+	if v, ok := f.set[n]; ok {
+		if i, err := strconv.Atoi(v); err == nil {
+			d = i
+		}
+	}
+	return &d
+}
 func (f *c10Flags) Float64(n string, d float64, _ string) *float64 {
+	if v, ok := f.set[n]; ok {
+		if x, err := strconv.ParseFloat(v, 64); err == nil {
+			d = x
+		}
+	}
 	return &d
 }
 func (f *c10Flags) String(n, d, _ string) *string {
@@ -127,11 +141,15 @@ func (f c10ObjFile) Symbols(r *regexp.Regexp, addr uint64) ([]*plugin.Sym, error
 }
 
 // c10Server starts the web UI of the real code on p and returns its handlers (HTTPServer hook).
-func c10Server(p *profile.Profile) (map[string]http.Handler, *c10UI, error) {
+func c10Server(p *profile.Profile, flags map[string]string) (map[string]http.Handler, *c10UI, error) {
 	ui := &c10UI{}
 	var handlers map[string]http.Handler
+	set := map[string]string{"http": "localhost:0", "symbolize": "none", "no_browser": "true"}
+	for k, v := range flags {
+		set[k] = v
+	}
 	err := driver.PProf(&plugin.Options{
-		Flagset: &c10Flags{set: map[string]string{"http": "localhost:0", "symbolize": "none", "no_browser": "true"}},
+		Flagset: &c10Flags{set: set},
 		Fetch:   c10Fetcher{p},
 		Sym:     c10Sym{},
 		Obj:     c10ObjTool{p},
@@ -240,7 +258,21 @@ func c10WebCase(c *Ctx, cs *c10Case) {
 		os.Setenv("XDG_CONFIG_HOME", d)
 		defer os.RemoveAll(d)
 	}
-	h0, _, err := c10Server(parse())
+	// process options that have no URL parameter are given as command-line flags (the same for every
+	// server of the case); @TREES@ is the scratch directory holding the case's source trees
+	trees, _ := os.MkdirTemp("", "c10trees-")
+	defer os.RemoveAll(trees)
+	for name, text := range c10SourceTrees(parse()) {
+		f := filepath.Join(trees, name)
+		os.MkdirAll(filepath.Dir(f), 0o755)
+		os.WriteFile(f, []byte(text), 0o644)
+	}
+	flags := map[string]string{}
+	for k, v := range cs.Flags {
+		flags[k] = strings.ReplaceAll(v, "@TREES@", trees)
+		c.Res.Hit("web-flag:" + k)
+	}
+	h0, _, err := c10Server(parse(), flags)
 	if err != nil {
 		c.Disagree("C10/harness/web-server", "cannot start the web UI through the plug-in API: "+err.Error(), "correspondence harness ~ web handlers", cs)
 		return
@@ -248,8 +280,8 @@ func c10WebCase(c *Ctx, cs *c10Case) {
 	ref := c10Get(h0, cs.Request)
 	dl0 := c10Get(h0, "/download")
 	R0 := map[string]bool{ref.bag(): true}
-	for i := 0; i < 2; i++ {
-		if h, _, err := c10Server(parse()); err == nil {
+	for i := 0; i < 4; i++ {
+		if h, _, err := c10Server(parse(), flags); err == nil {
 			R0[c10Get(h, cs.Request).bag()] = true
 		}
 	}
@@ -284,7 +316,7 @@ func c10WebCase(c *Ctx, cs *c10Case) {
 		}
 	}
 	// a second server on a second decode of the same bytes: the others, then r
-	h1, _, err := c10Server(parse())
+	h1, _, err := c10Server(parse(), flags)
 	if err != nil {
 		c.Disagree("C10/harness/web-server", "cannot start a second web UI: "+err.Error(), "correspondence harness ~ web handlers", cs)
 		return
